@@ -1,6 +1,6 @@
 (* C20 -- the intrusive list behaves as a deque, the intrusive pairing heap as a min-priority
    queue; links stay mutually consistent and removed nodes carry no links. *)
-From FI Require Import Base Timer TimerSpec DList PHeapPtr L0Spec L0Proofs.
+From FI Require Import Base Timer TimerSpec DList PHeapPtr L0Spec L0ListProofs L0HeapProofs.
 
 (* ---- list ---- *)
 (* [DList.repr d l]: head/tail and every prev/next link describe exactly the list l (no
